@@ -246,6 +246,27 @@ def run_case(case, ctx):
                         f"selecting shards with metadata {m} in {split} "
                         f"returns obligated examples {got_obl}, written with "
                         f"it: {want}")
+                # ... nor does limiting the selection to as many shards as
+                # carry that metadata
+                m_count = sum(1 for sh in dsops.shards_in_order(
+                    tree["splits"][split]["node"]) if sh["meta"] == m)
+                if m_count:
+                    try:
+                        got3 = [
+                            dsops.ex_id_of(e) for e in dsops.read_all(
+                                fresh, split, "sync", shuffle=0,
+                                shards=m_count,
+                                shard_filter=lambda s, m=m:
+                                s.custom_metadata == m)
+                        ]
+                    except ValueError:
+                        got3 = []
+                    if got3 != got:
+                        ctx.fail(
+                            "select", ("filter-with-unrestrictive-shards",),
+                            f"selecting shards with metadata {m} in {split} "
+                            f"returns {got}, together with shards={m_count} "
+                            f"(the number of such shards) it returns {got3}")
                 # the same selection combined with a per-metadata shard limit
                 # which cannot restrict anything (more than there are shards)
                 # selects the same examples (the limit hashes the values, so
